@@ -20,14 +20,14 @@ Variable tx : N -> N.
 Variable mt : metrics.
 Variable bursts : list (N * list (N * N)).
 
-Notation send := (send_message current tx mt).
-Notation drain := (Model.drain current tx mt).
-Notation unbusy := (Model.unbusy current tx mt).
-Notation offer := (Model.offer current tx mt).
-Notation handle_wake := (Model.handle_wake current tx mt bursts).
-Notation dispatch := (Model.dispatch current tx mt bursts).
-Notation step := (Model.step current tx mt bursts).
-Notation steps := (Model.steps current tx mt bursts).
+Notation send := (send_message current enc_ev tx mt).
+Notation drain := (Model.drain current enc_ev tx mt).
+Notation unbusy := (Model.unbusy current enc_ev tx mt).
+Notation offer := (Model.offer current enc_ev tx mt).
+Notation handle_wake := (Model.handle_wake current enc_ev tx mt bursts).
+Notation dispatch := (Model.dispatch current enc_ev tx mt bursts).
+Notation step := (Model.step current enc_ev tx mt bursts).
+Notation steps := (Model.steps current enc_ev tx mt bursts).
 
 (* ---- the functions of the model, as equations ---- *)
 Lemma send_busy s m len fq :
@@ -230,7 +230,8 @@ Qed.
 
 Lemma Good_offer s o : Good s -> Good (offer s o).
 Proof.
-  intros [HC Hi]. unfold Model.offer. apply Good_sample. destruct (busy (ch s)) eqn:Hb.
+  intros HG0. unfold Model.offer. apply Good_sample. apply Good_sample in HG0. revert HG0. generalize (sample s). clear s. intros s [HC Hi].
+  destruct (busy (ch s)) eqn:Hb.
   - destruct (Core_send_busy s (fst o) (snd o) false HC Hb) as [H1 H2]. split; [exact H1|].
     rewrite H2. discriminate.
   - pose proof HC as [HS Hw Hc Hq Ha Hf Hu]. rewrite Hb in *. specialize (Hi eq_refl).
@@ -245,7 +246,7 @@ Proof. induction offs as [|o offs IH]; intros s H; cbn [fold_left]; [exact H|]. 
 Lemma Good_handle_wake s k : Good s -> Good (handle_wake s k).
 Proof.
   intros H. unfold Model.handle_wake. destruct (nth_error bursts (N.to_nat k)) as [[t offs]|]; [|exact H].
-  apply Good_fold, Good_sample, H.
+  apply Good_fold, H.
 Qed.
 
 Lemma Good_handle_exit s m : Good s -> Good (handle_exit s m).
@@ -277,9 +278,9 @@ Qed.
 (* ---- the initial state ---- *)
 Lemma sched_wakes_inv bs : forall q0 k,
   SI q0 -> s_tcur q0 = 0 ->
-  SI (sched_wakes q0 k bs) /\ s_tcur (sched_wakes q0 k bs) = 0 /\
-  unbusies (pend (sched_wakes q0 k bs)) = unbusies (pend q0) /\
-  exits (pend (sched_wakes q0 k bs)) = exits (pend q0).
+  SI (sched_wakes enc_ev q0 k bs) /\ s_tcur (sched_wakes enc_ev q0 k bs) = 0 /\
+  unbusies (pend (sched_wakes enc_ev q0 k bs)) = unbusies (pend q0) /\
+  exits (pend (sched_wakes enc_ev q0 k bs)) = exits (pend q0).
 Proof.
   induction bs as [|[t offs] bs IH]; intros q0 k HS H0; cbn [sched_wakes].
   - refine (conj HS (conj H0 (conj eq_refl eq_refl))).
@@ -291,7 +292,7 @@ Proof.
     + rewrite H4, E2, E1. unfold exits. rewrite sel_new, sel_app. reflexivity.
 Qed.
 
-Lemma Good_init oracle : Good (init bursts oracle).
+Lemma Good_init oracle : Good (init enc_ev bursts oracle).
 Proof.
   destruct (sched_wakes_inv bursts sp_new 0 SI_new eq_refl) as [H1 [_ [H3 _]]].
   split; [|reflexivity]. constructor; cbn [init ch q log idle_chan busy finish buffer acc]; try reflexivity; try assumption.
@@ -303,7 +304,7 @@ Proof.
   destruct (step s) as [s'|] eqn:E; [|exact H]. apply IH. eapply Good_step; eassumption.
 Qed.
 
-Theorem Good_reachable oracle n : Good (steps n (init bursts oracle)).
+Theorem Good_reachable oracle n : Good (steps n (init enc_ev bursts oracle)).
 Proof. apply Good_steps, Good_init. Qed.
 
 End Core.
